@@ -150,6 +150,13 @@ def build(case, given=None, extra=True, defaults_distinct=False, wrap=False):
                    for port in case['ports']
                    if port['kind'] == 'glob2' and x['port'] == port['name']}
     parents = [p for p in parents if p not in glob_nodes and p != loc + ('proc',)]
+    if extra == 'noglob':
+        # the children of plain glob ports are then created by the initial state
+        # naming them, not by a sibling declaration
+        plain_globs = {tuple(x['node'][:-2]) for x in variables for port in case['ports']
+                       if port['kind'] == 'glob' and x['port'] == port['name']}
+        parents = [p for p in parents
+                   if not any(p[:len(g)] == g and len(p) > len(g) for g in plain_globs)]
     b.extra_nodes = []
     if extra and parents:
         processes['zz_other'] = Extra({'n': len(parents)})
